@@ -742,9 +742,9 @@ def opC13Script : List String → Res
       let n := opl.length
       let (r, obs) := opl.foldl (fun (acc : C13Run × List String) op =>
           let r := c13op acc.1 op
-          (r, acc.2 ++ [s!"{r.st.tokens}/{c13returned r}"])) ({ st := limInit cap n }, [])
+          (r, acc.2 ++ [s!"{r.st.tokens}/{c13returned r}/{holding r.st.reads}"])) ({ st := limInit cap n }, [])
       -- at the end every read is cancelled and every file ended: all tokens must be back
-      let maxHold := obs.foldl (fun m o => max m ((o.splitOn "/").headD "0" |>.toNat?.getD 0)) 0
+      let maxHold := obs.foldl (fun m o => max m ((o.splitOn "/").getD 2 "0" |>.toNat?.getD 0)) 0
       { m := if r.ok then joinWith "," obs ++ ";final=0" else "MODEL-LABEL-NOT-ENABLED",
         s := if maxHold ≤ cap then "within-limit;final=0" else "LIMIT-EXCEEDED",
         t := joinWith "," ((if opl.any (·.startsWith "C") then ["cancel"] else []) ++ (if obs.any (fun o => o.startsWith s!"{cap}/") then ["full"] else [])
